@@ -42,7 +42,7 @@ LoadFails(e) ==
   IN
   (IF On("C07") THEN
         F(e.doc = "nonjson" => (e.seterr = 1 /\ nnew = 0), "C07.nonjson")
-        \cup F(e.doc # "nonjson" => nnew = DocItemCount(e.doc, nk), "C07.count")
+        \cup F(e.doc \in {"keys", "keysextra", "single", "toparray", "jsonother"} => nnew = DocItemCount(e.doc, nk), "C07.count")
         \cup F(\A i \in 1..nnew : P_C07item(e.new[i]), "C07.item")
         \cup F(e.doc \in {"keys", "keysextra", "single"} =>
                  \A i \in 1..m : (e.keys[i].bad = 0 /\ e.keys[i].kid # NONE) => e.new[i].kid = e.keys[i].kid, "C07.order")
